@@ -520,6 +520,9 @@ func (p *c02printer) intSpell(z int64) string {
 		return sign + "0." + strings.Repeat("0", k-len(digits)) + digits + e + strconv.Itoa(k)
 	case 4: // scaled up mantissa, negative exponent
 		k := 1 + r.intn(3)
+		if z == 0 {
+			return "0" + e + "-" + strconv.Itoa(k)
+		}
 		return sign + digits + strings.Repeat("0", k) + e + "-" + strconv.Itoa(k)
 	default:
 		if z == 0 {
@@ -1014,6 +1017,14 @@ func (c *c02gen) emit(optBits int, oob int, doc []byte, res []c02res, desc []str
 func genC02(r *rng, n int) {
 	debug.SetPanicOnFault(true) // a memory fault inside the native code becomes a recoverable panic (observed as error class 10)
 	docs := 0
+	// special classes: depth limit, bitmap cache, dense output (capacity sweep), large documents, hand-written texts
+	docs += genC02Special(r, 4)
+	for k := 0; k < 1+n/700; k++ {
+		docs += genC02Special(r, 0)
+	}
+	for k := 0; docs < n/5; k++ {
+		docs += genC02Special(r, []int{1, 2, 2, 3}[k%4])
+	}
 	for docs < n {
 		c := newC02gen(r.fork())
 		idl := c.idl()
